@@ -364,12 +364,107 @@ fn unsplit_pairs(report: &Report, tier: Tier, seed: u64) {
     report.count("unsplit_refused", refused.load(Ordering::Relaxed));
 }
 
+
+/// Two Wrath client connections used alternately (and a half moved to another thread between the
+/// 4-byte attempt and the fifth byte): per-connection state must live in the connection.
+fn wrath_two_connections(report: &Report, tier: Tier, seed: u64) {
+    use wow_srp::wrath_header::{ClientDecrypterHalf, ServerEncrypterHalf, WrathServerAttempt};
+    #[derive(Clone, PartialEq, Eq, Hash, Debug)]
+    struct Conn {
+        se: ServerEncrypterHalf,
+        cd: ClientDecrypterHalf,
+        /// fifth byte still to be supplied, and the header the server sent
+        pending: Option<(u8, u32, u16)>,
+        n: u32,
+    }
+    #[derive(Clone, Copy, Debug)]
+    enum A {
+        Start(usize, bool),
+        Complete(usize, bool),
+    }
+    let k1 = refmodel::ctr_array::<40>(seed, "c12-two-1");
+    let k2 = refmodel::ctr_array::<40>(seed, "c12-two-2");
+    for (ka, kb) in [(k1, k2), (k1, k1)] {
+        let mk = |k: &[u8; 40]| Conn { se: ciphers::wrath_server(k).split().0, cd: ciphers::wrath_client(k).split().1, pending: None, n: 0 };
+        let init = (mk(&ka), mk(&kb));
+        let mut actions = vec![];
+        for c in 0..2 {
+            for long in [false, true] {
+                actions.push(A::Start(c, long));
+            }
+            actions.push(A::Complete(c, false));
+            actions.push(A::Complete(c, true));
+        }
+        let depth = tier.pick(6usize, 8usize);
+        let r = bfs(vec![init], &actions, Some(depth), |s, a| {
+            let mut st = s.clone();
+            match *a {
+                A::Start(c, long) => {
+                    let conn = if c == 0 { &mut st.0 } else { &mut st.1 };
+                    if conn.pending.is_some() {
+                        return Ok(None);
+                    }
+                    let size: u32 = if long { 0x8000 + conn.n * 0x10101 % 0x7F0000 } else { 13 + conn.n };
+                    let opcode: u16 = 0x1EE + conn.n as u16 * 0x101;
+                    let wire = conn.se.encrypt_server_header(size, opcode).to_vec();
+                    conn.n += 1;
+                    match conn.cd.attempt_decrypt_server_header([wire[0], wire[1], wire[2], wire[3]]) {
+                        WrathServerAttempt::Header(h) => {
+                            if wire.len() != 4 || (h.size, h.opcode) != (size, opcode) {
+                                return Err(format!("connection {c}: short header size={size:#x} opcode={opcode:#x} decoded as size={:#x} opcode={:#x}", h.size, h.opcode));
+                            }
+                        }
+                        WrathServerAttempt::AdditionalByteRequired => {
+                            if wire.len() != 5 {
+                                return Err(format!("connection {c}: a 4-byte header asks for a fifth byte"));
+                            }
+                            conn.pending = Some((wire[4], size, opcode));
+                        }
+                    }
+                }
+                A::Complete(c, other_thread) => {
+                    let conn = if c == 0 { &mut st.0 } else { &mut st.1 };
+                    let (byte, size, opcode) = match conn.pending.take() {
+                        Some(p) => p,
+                        None => return Ok(None),
+                    };
+                    let h = if other_thread {
+                        // the half is moved to another thread between the attempt and the fifth byte
+                        let mut moved = conn.cd.clone();
+                        let (h, back) = std::thread::scope(|sc| sc.spawn(move || { let h = moved.decrypt_large_server_header(byte); (h, moved) }).join().unwrap());
+                        conn.cd = back;
+                        h
+                    } else {
+                        conn.cd.decrypt_large_server_header(byte)
+                    };
+                    if (h.size, h.opcode) != (size, opcode) {
+                        return Err(format!("connection {c}{}: long header size={size:#x} opcode={opcode:#x} completed as size={:#x} opcode={:#x}", if other_thread { " (completed on another thread)" } else { "" }, h.size, h.opcode));
+                    }
+                }
+            }
+            Ok(Some(st))
+        });
+        report.count("states", r.states);
+        report.count("transitions", r.transitions);
+        report.count("two_connection_states", r.states);
+        if let Some((p, m)) = r.violation {
+            report.violation(Violation {
+                signature: "C12|wrath-client|two-connections|header-state-leaks-between-objects-or-threads".into(),
+                scenario: "wrath::two-connections".into(),
+                replay: json!({"key_a": hex(&ka), "key_b": hex(&kb), "actions": p.iter().map(|a| format!("{a:?}")).collect::<Vec<_>>()}),
+                detail: json!({ "message": m }),
+            });
+        }
+    }
+}
+
 /// Premise scan (never a verdict): no `static`, no interior mutability, no unsafe in the header modules.
 fn premise_scan(report: &Report) {
     let mut findings = vec![];
     let mut files = 0;
-    for dir in ["/repo/src/vanilla_header", "/repo/src/tbc_header", "/repo/src/wrath_header", "/repo/src/wrath_header/inner_crypto"] {
-        if let Ok(rd) = std::fs::read_dir(dir) {
+    let src = mc::report::repo_root().join("src");
+    for dir in ["vanilla_header", "tbc_header", "wrath_header", "wrath_header/inner_crypto"] {
+        if let Ok(rd) = std::fs::read_dir(src.join(dir)) {
             for e in rd.flatten() {
                 let p = e.path();
                 if p.extension().map_or(false, |x| x == "rs") {
@@ -391,12 +486,12 @@ fn premise_scan(report: &Report) {
             }
         }
     }
-    if let Ok(t) = std::fs::read_to_string("/repo/src/rc4.rs") {
+    if let Ok(t) = std::fs::read_to_string(src.join("rc4.rs")) {
         files += 1;
         for (i, l) in t.lines().enumerate() {
             for pat in ["static ", "Cell<", "Atomic", "unsafe "] {
                 if l.contains(pat) && !l.trim_start().starts_with("//") {
-                    findings.push(format!("/repo/src/rc4.rs:{}: {}", i + 1, pat.trim()));
+                    findings.push(format!("src/rc4.rs:{}: {}", i + 1, pat.trim()));
                 }
             }
         }
@@ -424,10 +519,12 @@ pub fn run(tier: Tier, seed: u64) -> i32 {
         explore_mod::<WrathServerM>(&report, key, lens, pats, *depth);
     });
     unsplit_pairs(&report, tier, seed);
+    wrath_two_connections(&report, tier, seed);
     premise_scan(&report);
 
     // E4: loom schedules (separate binary; its JSON summary is merged here)
-    let loom_bin = "/verif/.build/default/release/loomcheck";
+    let loom_bin_path = mc::report::build_root().join("default/release/loomcheck");
+    let loom_bin = loom_bin_path.to_str().unwrap();
     match std::process::Command::new(loom_bin).arg(tier.name()).output() {
         Ok(out) => {
             let text = String::from_utf8_lossy(&out.stdout).to_string();
@@ -438,7 +535,7 @@ pub fn run(tier: Tier, seed: u64) -> i32 {
                     report.violation(Violation {
                         signature: format!("C12|loom|{}", v["harness"].as_str().unwrap_or("?")),
                         scenario: "loom::two-threads".into(),
-                        replay: json!({"harness": v["harness"], "how": "run /verif/.build/default/release/loomcheck"}),
+                        replay: json!({"harness": v["harness"], "how": format!("run {loom_bin}")}),
                         detail: json!({"message": v["violation"], "stderr_tail": String::from_utf8_lossy(&out.stderr).lines().rev().take(5).collect::<Vec<_>>()}),
                     });
                 } else {
@@ -463,6 +560,7 @@ pub fn run(tier: Tier, seed: u64) -> i32 {
     report.set("exhaustive", json!(false));
     report.cap_hit(&format!("interleaving depth bounded: {:?}", plans.iter().map(|p| p.2).collect::<Vec<_>>()));
     report.space("all interleavings of {encrypt/decrypt chunks of length 1,4,6 x 2 contents, split, clone, unsplit} up to the stated depths for vanilla, tbc, wrath-client, wrath-server with exact dedup");
+    report.space("two Wrath client connections (different and identical keys) used alternately through the typed header API, with the half optionally moved to another thread between the 4-byte attempt and the fifth byte, BFS with exact dedup");
     report.space("Vanilla unsplit: all 40x255 one-byte key differences, all position pairs x 3 two-byte differences, identical keys at 4..64 (enc,dec) stream positions, unrelated keys");
     report.assume("thread schedules: the halves own all their state (no statics/interior mutability - see premise_scan), so a real schedule is equivalent to a call-level interleaving; loom explores all schedules of 2 threads x 3 operations with scheduling points between library calls");
     report.finish()
